@@ -123,4 +123,17 @@ def signTxn (w : W) (t : STxn) (idx : List Int) (uxAddrs : List Nat) : Res STxn 
             if fullySigned sigs' then .err (internal "Transaction is fully signed, but shouldn't be")
             else .ok { t with sigs := sigs' }
 
+/-- the signing loop of `CreateTransactionSigned`: input i (uxid, owning address) is signed with the
+key of the wallet entry for THAT address -/
+def signCreated (entries : List Entry) (inner : Nat) : List (Nat × Nat) → Res (List Sig)
+  | [] => .ok []
+  | (u, a) :: r =>
+    match keyFor entries a with
+    | none => .err (internal "Chosen spend address not found in wallet")
+    | some k =>
+      if k = 0 then .panic "MustSignHash: invalid secret key"
+      else match signCreated entries inner r with
+        | .ok l => .ok (.made k inner u :: l)
+        | e => e
+
 end Sky.C13
